@@ -20,6 +20,10 @@ def ops_for(is_dict):
         bad_value = [("dsetitem", "k", Other(1)), ("dsetitem", 5, 1), ("dupdate", {"k": Other(2)}, {}), ("dsetdefault", "zz", {3: 1}),
                      ("dreset", {"r": Other(1)}), ("dreset", [1])]
         missing = [("ddelitem", "nope"), ("dgetitem", "nope")]
+        # a synced ROOT object on ANOTHER file as the operand: reading it inside the own context
+        # must not acquire a second file lock (lock-order audit)
+        muts += [("dupdate", PEER, {}), ("dsetitem", "peer", PEER), ("dsetdefault", "peer", PEER), ("dreset", PEER)]
+        reads += [("deq", PEER)]
     else:
         muts = [("lsetitem", 0, 1), ("ldelitem", 0), ("linsert", 0, 5), ("lappend", 6), ("lextend", [7]), ("liadd", [8]),
                 ("lremove", 1), ("lclear",), ("lpop", -1), ("lreverse",), ("lreset", [9])]
@@ -28,7 +32,12 @@ def ops_for(is_dict):
         bad_value = [("lappend", Other(1)), ("lsetitem", 0, {4: 1}), ("lextend", [Other(2)]), ("liadd", 5), ("linsert", 0, Other(3)),
                      ("lreset", [Other(1)]), ("lreset", {"a": 1})]
         missing = [("ldelitem", 99), ("lgetitem", 99), ("lremove", "absent"), ("lpop", 99), ("lsetitem", 99, 1)]
+        muts += [("lappend", PEER), ("lextend", PEER), ("liadd", PEER), ("lsetitem", 0, PEER), ("lreset", PEER)]
+        reads += [("leq", PEER), ("lcmp", "lt", PEER)]
     return muts, reads, bad_value, missing
+
+
+PEER = ("@peer",)
 
 
 def _held(classes):
@@ -129,6 +138,13 @@ def unit_c10_faults(args):
                steps=0, stats={}, violations=[])
     classes = list(fam.classes)
     muts, reads, bad_value, missing = ops_for(is_dict)
+    if buffered != "no":
+        # inside a buffered context the first load of a file takes that file's lock (by design:
+        # `_load_from_buffer` merges under `self._thread_lock`) - always with the class-wide buffer
+        # lock held, which gates every such nesting; the rank-based audit does not model gate
+        # locks, so synced operands on another file are audited in unbuffered mode only
+        muts = [op for op in muts if not any(a is PEER for a in op[1:])]
+        reads = [op for op in reads if not any(a is PEER for a in op[1:])]
     cases = []
     for op in muts + reads:
         for fault in ("corrupt", "wrongkind", "save-io", "save-ser"):
@@ -160,6 +176,8 @@ def unit_c10_faults(args):
                     root = world.open(root_is_dict, 0)
                     tgt = root["c"] if nested else root
                     other = world.open(root_is_dict, 0)
+                    world.write(1, {"p": 1, "q": {"r": 2}} if is_dict else [5, [6], 7])
+                    peer = world.open(is_dict, 1)
                     S.name_locks(classes)
                     cls = type(root)
                     ctx = None
@@ -186,7 +204,7 @@ def unit_c10_faults(args):
                     raised = None
                     S.EVENT_LOG[0] = []
                     try:
-                        apply_call(tgt, op[0], list(op[1:]))
+                        apply_call(tgt, op[0], [peer if a is PEER else a for a in op[1:]])
                     except Exception as e:  # noqa: BLE001
                         raised = type(e).__name__
                     finally:
@@ -194,7 +212,9 @@ def unit_c10_faults(args):
                         ns.json_mod.json.dumps = orig_dumps
                         oplog = S.EVENT_LOG[0]
                         S.EVENT_LOG[0] = None
-                    if tie_problem is None:
+                    if tie_problem is None and not any(a is PEER for a in op[1:]):
+                        # (with a synced operand the operand's own load - another file, before or
+                        # inside the context - is not part of the operation's bracket)
                         tie_problem = bracket_check(md, oplog, op, fault, nested, buffered, raised, fam.buffered is not None)
                     if tie_problem is None:
                         tie_problem = order_check(md, oplog, "%s%r (%s)" % (op[0], tuple(op[1:]), fault))
